@@ -117,6 +117,12 @@ func traversable(r *Run, pj *simdjson.ParsedJson, what string) bool {
 		r.violate("untraversable", "ForEach-walk", fmt.Sprintf("%s: accepted, but the ForEach walk fails: %v", what, err))
 		return false
 	}
+	if _, err := WalkAdvance(pj); err != nil {
+		// (includes: PeekNext announces what Advance returns, and an exhausted iterator reports no type - loops
+		// written against Type() terminate)
+		r.violate("untraversable", "Advance-walk", fmt.Sprintf("%s: accepted, but the Advance walk fails: %v", what, err))
+		return false
+	}
 	if _, err := MarshalRoot(pj); err != nil {
 		r.violate("untraversable", "MarshalJSON", fmt.Sprintf("%s: accepted, but MarshalJSON fails: %v", what, err))
 		return false
